@@ -204,3 +204,101 @@ class WriteHash(Contract):
 
 for _k in (CV + 'SeismicFileConverter.write_hash', CV + 'NumpyConverter.write_hash'):
     fuc(_k, props=['C20', 'C03'])(WriteHash)
+
+
+rec(CV + 'NumpyConverter.write_headers', 'np_write_headers', ('NumpyConverter.run',))
+rec(CV + 'NumpyConverter.write_hash', 'np_write_hash', ('NumpyConverter.run',))
+
+
+class NumpyConverterRun(Contract):
+    """NumpyConverter.run: setting validated (C19), geometry = the whole cube, header_info built from the converter's (ordered) trace_headers
+    with one entry per trace, then run_conversion_loop on a CubeWithAxes of the converter's array and axes, write_headers, write_hash -- in
+    that order on the one output handle"""
+    may_raise = ()
+
+    def inputs(self, c):
+        prog = c.ex.prog
+        nI = c.sym_int('nI', lo=2, name='n_ilines'); nX = c.sym_int('nX', lo=2, name='n_xlines'); nZ = c.sym_int('nZ', lo=2, name='n_samples')
+        from .c_producers import src
+        data = SArray((nI, nX, nZ), lambda idx: src(idx[0], idx[1], idx[2]), 'float32')
+        il = SArray((nI,), lambda idx: idx[0], 'int64'); xl = SArray((nX,), lambda idx: idx[0], 'int64'); sm = SArray((nZ,), lambda idx: mul(4, idx[0]), 'int64')
+        th = {189: SArray((nI, nX), lambda idx: idx[0], 'int64'), 193: SArray((nI, nX), lambda idx: idx[1], 'int64')}
+        me = SObj(prog.klass('NumpyConverter'), dict(data_array=data, ilines=il, xlines=xl, samples=sm, trace_headers=th, geom=None))
+        return dict(self=me, out_filename='out.sgz', bits_per_voxel=4, blockshape=(4, 4, -1), _n=(nI, nX, nZ))
+
+    def post(self, c, a, result):
+        me = a['self']
+        nI, nX, nZ = a['_n']
+        calls = c.ghost.get('glue_calls', [])
+        tags = [t for (t, _, _) in calls]
+        c.ensure(mk_bool(tags == ['run_conversion_loop', 'np_write_headers', 'np_write_hash']), 'order.header_and_data_then_footer_then_hash')
+        if tags != ['run_conversion_loop', 'np_write_headers', 'np_write_hash']:
+            return
+        rcl = calls[0][1]
+        opened = c.ghost.get('opened', [])
+        c.ensure(mk_bool(len(opened) == 1 and opened[0][0] == 'out.sgz' and opened[0][1] == 'wb'), 'one_output_file_opened_for_writing')
+        out = opened[0][2] if opened else None
+        cube = rcl['source']
+        ok = isinstance(cube, SObj) and cube.cls is not None and cube.cls.name == 'CubeWithAxes'
+        c.ensure(mk_bool(ok and cube.fields['data_array'] is me.fields['data_array'] and cube.fields['ilines'] is me.fields['ilines'] and cube.fields['xlines'] is me.fields['xlines'] and cube.fields['samples'] is me.fields['samples']), 'source_is_the_converters_cube_with_its_axes')
+        c.ensure(mk_bool(rcl['bits_per_voxel'] == 4 and tuple(rcl['blockshape']) == (4, 4, 512) and rcl['out_filehandle'] is out), 'conversion_loop_gets_the_validated_setting_and_the_output_handle')
+        g = rcl['geom']
+        c.ensure(mk_bool(isinstance(g, SObj)) and And(eq(g.fields['ilines'].start, 0), eq(g.fields['ilines'].stop, nI), eq(g.fields['xlines'].start, 0), eq(g.fields['xlines'].stop, nX)), 'geometry_is_the_whole_cube')
+        hi = rcl['header_info']
+        c.ensure(mk_bool(isinstance(hi, SObj) and hi.fields.get('headers_dict') is me.fields['trace_headers']), 'header_info_holds_the_converters_ordered_header_arrays')
+        t = hi.fields.get('table', {})
+        c.ensure(mk_bool(all((t.get(k) == (0, k)) == (k in (189, 193)) for k in MX.TF_TRACE_KEYS)), 'table_marks_exactly_the_given_fields_as_stored')
+        wh = calls[1][1]
+        c.ensure(mk_bool(wh['header_info'] is hi and wh['out_filehandle'] is out), 'write_headers_gets_the_same_header_info_and_handle')
+        whs = calls[2][1]
+        c.ensure(mk_bool(whs['hash'] is calls[0][2] and whs['out_filehandle'] is out), 'write_hash_gets_the_digest_of_the_conversion_loop')
+
+
+fuc(CV + 'NumpyConverter.run', props=['C01', 'C03', 'C04', 'C18', 'C20'])(NumpyConverterRun)
+
+
+rec(CU + 'make_header_numpy', 'make_header_numpy', RCL, lambda c, a: BM.SByteArray(BM.junk_bytes(2 * BLK, 'header')))
+rec(CU + 'numpy_producer', 'numpy_producer', RCL)
+
+
+class RunConversionLoopNumpy(Contract):
+    """run_conversion_loop (NumPy source): header from make_header_numpy for this cube / setting / header_info / geometry is what the writer
+    thread writes first; numpy_producer is fed the cube's data array, the blockshape and the hash object whose digest is returned"""
+    may_raise = ()
+
+    def inputs(self, c):
+        prog = c.ex.prog
+        nI = c.sym_int('nI', lo=2, name='n_ilines'); nX = c.sym_int('nX', lo=2, name='n_xlines'); nZ = c.sym_int('nZ', lo=2, name='n_samples')
+        from .c_producers import src
+        data = SArray((nI, nX, nZ), lambda idx: src(idx[0], idx[1], idx[2]), 'float32')
+        cube = SObj(prog.klass('CubeWithAxes'), dict(data_array=data, ilines=SArray((nI,), lambda idx: idx[0], 'int64'), xlines=SArray((nX,), lambda idx: idx[0], 'int64'),
+                                                     samples=SArray((nZ,), lambda idx: idx[0], 'int64')))
+        geom = SObj(prog.klass('Geometry3d'), dict(ilines=MX.SRange(0, nI, 1), xlines=MX.SRange(0, nX, 1)))
+        hi = SObj(prog.klass('HeaderwordInfo'), dict(headers_dict={}, table={}, header_detection=None))
+        out = IO.new_file(('out', 0), 'wb', 'out.sgz')
+        return dict(source=cube, out_filehandle=out, bits_per_voxel=4, blockshape=(4, 4, 512), header_info=hi, geom=geom)
+
+    def post(self, c, a, result):
+        calls = c.ghost.get('glue_calls', [])
+        tags = [t for (t, _, _) in calls]
+        c.ensure(mk_bool(tags == ['make_header_numpy', 'numpy_producer']), 'header_built_then_the_numpy_producer_run')
+        if tags != ['make_header_numpy', 'numpy_producer']:
+            return
+        mh, hdr = calls[0][1], calls[0][2]
+        c.ensure(mk_bool(mh['source'] is a['source'] and mh['bits_per_voxel'] == 4 and mh['blockshape'] == (4, 4, 512) and mh['header_info'] is a['header_info'] and mh['geom'] is a['geom']), 'header_for_this_cube_setting_header_info_and_geometry')
+        th, qs = c.ghost.get('threads', []), c.ghost.get('queues', [])
+        c.ensure(mk_bool(len(th) == 2 and len(qs) == 2 and all(t.fields['started'] for t in th)), 'two_worker_threads_started_two_queues')
+        if len(th) != 2 or len(qs) != 2:
+            return
+        comp, wr = th
+        prog = c.ex.prog
+        c.ensure(mk_bool(comp.fields['target'] is prog.function(CU + 'compressor') and comp.fields['args'][0] is qs[0] and comp.fields['args'][1] is qs[1] and comp.fields['args'][2] == 4), 'compressor_between_the_two_queues_at_the_requested_rate')
+        c.ensure(mk_bool(wr.fields['target'] is prog.function(CU + 'writer') and wr.fields['args'][0] is qs[1] and wr.fields['args'][1] is a['out_filehandle'] and wr.fields['args'][2] is hdr), 'writer_gets_the_output_handle_and_that_header')
+        p = calls[1][1]
+        c.ensure(mk_bool(p['queue'] is qs[0] and p['in_array'] is a['source'].fields['data_array'] and p['blockshape'] == (4, 4, 512)), 'producer_feeds_the_compression_queue_from_the_cube')
+        joins = c.ghost.get('joins', [])
+        c.ensure(mk_bool(len(joins) == 2 and joins[0] is qs[0] and joins[1] is qs[1]), 'both_queues_joined_in_pipeline_order')
+        c.ensure(mk_bool(getattr(result, 'digest_of', None) is not None and p['hash_object'].fields['log'] == result.digest_of), 'returns_the_digest_of_the_hash_object_the_producer_fed')
+
+
+fuc(CU + 'run_conversion_loop', props=['C01', 'C03', 'C16', 'C20'])(RunConversionLoopNumpy)
